@@ -204,8 +204,8 @@ fn valid_case() -> BS<Case> {
 }
 
 // ---------------------------------------------------------------- mutations
-const PAYLOAD: [&str; 60] = [
-    "２", "٣", "μ", "é", "€", "𝄞", "\u{200b}", "\u{7f}", "-", "+", ".", ":", "T", "Z", " ", "  ", "\t", "\n", "\u{0}", "e400", "1e400", "1e-400", "inf", "nan", "NaN", "infinity", "-inf", "%", "?", "%%", "%Q", "%w", "%y", "%J", "%z", "%T", "0", "9", "60", "24", "13", "32", "99", "999999999999", "2147483647", "-2147483648", "JD", "MJD", "SEC", "UTC", "TAI", "GPST", "QZSST", "January", "Mon", "days", "ns", "h", "μs", ",",
+const PAYLOAD: [&str; 76] = [
+    "−", "–", "—", "＋", "：", "．", "Ｔ", "Ｚ", "\u{3000}", "\u{2009}", "／", "，", "％", "？", "𝟙", "٠", "２", "٣", "μ", "é", "€", "𝄞", "\u{200b}", "\u{7f}", "-", "+", ".", ":", "T", "Z", " ", "  ", "\t", "\n", "\u{0}", "e400", "1e400", "1e-400", "inf", "nan", "NaN", "infinity", "-inf", "%", "?", "%%", "%Q", "%w", "%y", "%J", "%z", "%T", "0", "9", "60", "24", "13", "32", "99", "999999999999", "2147483647", "-2147483648", "JD", "MJD", "SEC", "UTC", "TAI", "GPST", "QZSST", "January", "Mon", "days", "ns", "h", "μs", ",",
 ];
 
 #[derive(Clone, Debug)]
@@ -218,7 +218,7 @@ struct Mutation {
 }
 
 fn mutation() -> BS<Mutation> {
-    (0u8..8, prop_oneof![3 => 0u16..12, 2 => 65_520u16..=65_535, 3 => any::<u16>()], 0usize..60, prop_oneof![4 => 1u16..12, 1 => 1u16..400], prop::bool::weighted(0.3))
+    (0u8..9, prop_oneof![3 => 0u16..12, 2 => 65_520u16..=65_535, 3 => any::<u16>()], 0usize..76, prop_oneof![4 => 1u16..12, 1 => 1u16..400], prop::bool::weighted(0.3))
         .prop_map(|(kind, pos, payload, run, on_format)| Mutation { kind, pos, payload, run, on_format })
         .boxed()
 }
@@ -242,6 +242,26 @@ fn apply(s: &str, m: &Mutation, other: &str) -> String {
         4 => s[..i].to_string(),                                                   // truncate
         5 => format!("{}{}", &s[..i], &other[char_pos(other, m.pos ^ 0x5555)..]),   // splice
         6 => format!("{}{}{}", &s[..i], "9".repeat(m.run as usize), &s[i..]),       // digit run
+        8 => {
+            // replace the character at this position by a Unicode look-alike of the same syntactic role
+            let cur = s[i..].chars().next();
+            let rep = match cur {
+                Some('-') => ["−", "–", "—", "‐"][m.payload % 4],
+                Some('+') => ["＋", "⁺", "➕", "﹢"][m.payload % 4],
+                Some(':') => ["：", "∶", "꞉", "︓"][m.payload % 4],
+                Some('.') => ["．", "。", "․", "٫"][m.payload % 4],
+                Some(' ') => ["\u{a0}", "\u{3000}", "\u{2009}", "\u{202f}"][m.payload % 4],
+                Some('T') => ["Ｔ", "Τ", "Т", "ｔ"][m.payload % 4],
+                Some('Z') => ["Ｚ", "Ζ", "ｚ", "ᴢ"][m.payload % 4],
+                Some('%') => ["％", "٪", "﹪", "⁒"][m.payload % 4],
+                Some(c) if c.is_ascii_digit() => {
+                    let d = c as u32 - '0' as u32;
+                    return format!("{}{}{}", &s[..i], char::from_u32([0xff10, 0x0660, 0x06f0, 0x1d7d8][m.payload % 4] + d).unwrap_or('0'), &s[next..]);
+                }
+                _ => p,
+            };
+            format!("{}{}{}", &s[..i], rep, &s[next..])
+        }
         _ => format!("{}{}{}", &s[..i], p.repeat((m.run as usize % 5) + 1), &s[i..]),
     }
 }
@@ -401,10 +421,65 @@ pub fn oracle(c: &Case) -> Verdict {
     Verdict::Pass(class, oks >= 1 || multibyte)
 }
 
+// ---------------------------------------------------------------- second = 60 in text, every semester end 1960-2030
+#[derive(Clone, Debug, Serialize, Deserialize)]
+pub struct LeapText {
+    pub y: i64,
+    pub june: bool,
+    /// 0 plain, 1 ' UTC', 2 'Z', 3 ' TAI', 4 space separator, 5 with a fraction
+    pub form: u8,
+}
+
+fn leap_text_enum(_t: Tier, shard: usize, sink: &mut dyn FnMut(LeapText) -> bool) {
+    let mut i = 0;
+    for y in 1960..=2030 {
+        for june in [true, false] {
+            for form in 0..6u8 {
+                i += 1;
+                if i % SHARDS == shard && !sink(LeapText { y, june, form }) {
+                    return;
+                }
+            }
+        }
+    }
+}
+
+fn leap_text_oracle(c: &LeapText) -> Verdict {
+    let (m, d) = if c.june { (6, 30) } else { (12, 31) };
+    if (c.y, m) == (1971, 12) {
+        return Verdict::Skip("1971-12-31T23:59:60 is left open by the statement");
+    }
+    let next_day_s = (days_1900(c.y, m, d) + 1) * 86_400;
+    let is_leap_day = leap_table().iter().skip(1).any(|(ts, _)| *ts == next_day_s);
+    let body = format!("{:04}-{:02}-{:02}{}23:59:60", c.y, m, d, if c.form == 4 { ' ' } else { 'T' });
+    let txt = match c.form {
+        1 => format!("{body} UTC"),
+        2 => format!("{body}Z"),
+        3 => format!("{body} TAI"),
+        5 => format!("{body}.5 UTC"),
+        _ => body,
+    };
+    let fmt = match c.form {
+        1 | 3 => "%Y-%m-%dT%H:%M:%S %T",
+        4 => "%Y-%m-%d %H:%M:%S",
+        0 => "%Y-%m-%dT%H:%M:%S",
+        _ => "",
+    };
+    let a = lib!(Epoch::from_str(&txt));
+    let b = lib!(Epoch::from_gregorian_str(&txt));
+    ensure!(a.is_ok() == is_leap_day && b.is_ok() == is_leap_day, "{:?}: from_str is_ok = {}, from_gregorian_str is_ok = {}; IERS inserted a leap second at the end of that day: {}", txt, a.is_ok(), b.is_ok(), is_leap_day);
+    if !fmt.is_empty() {
+        let f = lib!(Epoch::from_format_str(&txt, fmt));
+        ensure!(f.is_ok() == is_leap_day, "{:?} with format {:?}: is_ok = {}; leap-second day: {}", txt, fmt, f.is_ok(), is_leap_day);
+    }
+    Verdict::Pass(if is_leap_day { "leap-second-day-accepted" } else { "no-leap-second-rejected" }, true)
+}
+
 pub fn subs() -> Vec<Box<dyn DynSub>> {
     vec![
         sub(Sub { name: "c13.strings", source: Source::Gen(case_strategy, 600_000, 30_000_000), oracle, known, hang_is_violation: true }),
         sub(Sub { name: "c13.out_of_range", source: Source::Gen(reject_only_strategy, 100_000, 3_000_000), oracle, known, hang_is_violation: true }),
+        sub(Sub { name: "c13.leap_second_text", source: Source::Enum(leap_text_enum, |_| true), oracle: leap_text_oracle, known: no_known, hang_is_violation: true }),
         crate::props::fuzzsub::c13_fuzz(),
     ]
 }
